@@ -55,7 +55,7 @@ def make_calls(ctx: Ctx, d: specgen.Doc) -> list[dict]:
         for ci, code in enumerate(two):
             r = op["responses"][code]
             for rep in range(2 if ctx.quick else 4):
-                plan = {"status": int(code)}
+                plan = {"status": specgen.status_int(code, rng)}
                 exp = {"op": op, "code": code, "kind": r.get("content"), "primary": ci == 0, "has_content_sibling": has_content}
                 kind = r.get("content")
                 if kind is None:
@@ -103,7 +103,7 @@ def make_calls(ctx: Ctx, d: specgen.Doc) -> list[dict]:
                     break
             # the other content types declared on the same response: one reply each, announced by Content-Type
             for ai, alt in enumerate(r.get("alt") or []):
-                plan = {"status": int(code), "headers": {"content-type": alt["media"]}}
+                plan = {"status": specgen.status_int(code, rng), "headers": {"content-type": alt["media"]}}
                 exp = {"op": op, "code": code, "kind": alt["content"], "primary": ci == 0, "has_content_sibling": True, "alt_media": alt["media"]}
                 if alt["content"] == "json":
                     body = instgen.instance(rng, alt["schema"], d.sexp, "random")
@@ -202,7 +202,7 @@ def mk_doc(ctx: Ctx, trig: set[str]) -> specgen.Doc:
     kinds = ["sse", "binary", "text", "ndjson"]
     d = specgen.generate(ctx.rng, allow=trig, prof={"ops": (2, 5), "p_param": 0.3, "p_body": 0.2, "schemas": (2, 5), "p_multi2xx": 0.5,
                                                     "p_stream": 0.3, "stream_kinds": kinds, "p_nullable_response": 0.3, "json_media_variants": True,
-                                                    "p_multi_response_media": 0.25, "p_component_refs": 0.3,
+                                                    "p_multi_response_media": 0.25, "p_component_refs": 0.3, "p_range_2xx": 0.12,
                                                     "styles": ["camel", "snake", "kebab", "keywordish"], "p_self_ref": 0.0, "p_union": 0.0})
     return d
 
